@@ -1,51 +1,15 @@
-(* Driver for the extracted model: one command per input line, one result line per command.
-   Byte strings travel as hex ("-" is the empty string). *)
-open Model
-
-let rec pos_of_int n = if n = 1 then XH else if n land 1 = 0 then XO (pos_of_int (n lsr 1)) else XI (pos_of_int (n lsr 1))
-let n_of_int n = if n = 0 then N0 else Npos (pos_of_int n)
-let rec int_of_pos = function XH -> 1 | XO p -> 2 * int_of_pos p | XI p -> 2 * int_of_pos p + 1
-let int_of_n = function N0 -> 0 | Npos p -> int_of_pos p
-let rec nat_of_int n = if n = 0 then O else S (nat_of_int (n - 1))
-let rec int_of_nat = function O -> 0 | S n -> 1 + int_of_nat n
-
-let bytes_of_hex (h : Stdlib.String.t) : n list =
-  if h = "-" then [] else begin
-    let len = Stdlib.String.length h / 2 in
-    Stdlib.List.init len (fun i -> n_of_int (int_of_string ("0x" ^ Stdlib.String.sub h (2 * i) 2)))
-  end
-let hex_of_bytes (b : n list) : Stdlib.String.t =
-  if b = [] then "-" else Stdlib.String.concat "" (Stdlib.List.map (fun x -> Printf.sprintf "%02x" (int_of_n x)) b)
-
-let rec string_of_coq = function EmptyString -> "" | String (Ascii (b0,b1,b2,b3,b4,b5,b6,b7), r) ->
-  let bit b k = if b then 1 lsl k else 0 in
-  Stdlib.String.make 1 (Char.chr (bit b0 0 + bit b1 1 + bit b2 2 + bit b3 3 + bit b4 4 + bit b5 5 + bit b6 6 + bit b7 7)) ^ string_of_coq r
-
-let gres f = function GOk a -> f a | GPanic w -> "panic"
-
-let handle (cmd : Stdlib.String.t) (args : Stdlib.String.t list) : Stdlib.String.t =
-  match cmd, args with
-  | "includename", [h] ->
-    gres (function None -> "ok" | Some _ -> "err") (validateIncludeFileName (bytes_of_hex h))
-  | "includemsg", [h] ->
-    gres (function None -> "ok" | Some m -> "err " ^ hex_of_bytes m) (validateIncludeFileName (bytes_of_hex h))
-  | "tagname", [h] -> gres hex_of_bytes (tagName (bytes_of_hex h))
-  | "clean", [h] -> hex_of_bytes (clean (bytes_of_hex h))
-  | "dir", [h] -> hex_of_bytes (dir (bytes_of_hex h))
-  | "join2", [a; b] -> hex_of_bytes (join2 (bytes_of_hex a) (bytes_of_hex b))
-  | "replace_all", [o; n; s] -> hex_of_bytes (replace_all (bytes_of_hex o) (bytes_of_hex n) (bytes_of_hex s))
-  | "replace_first", [o; n; s] -> hex_of_bytes (replace_first (bytes_of_hex o) (bytes_of_hex n) (bytes_of_hex s))
-  | "contains", [sub; s] -> if contains (bytes_of_hex sub) (bytes_of_hex s) then "true" else "false"
-  | "path_escape", [s] -> hex_of_bytes (path_escape (bytes_of_hex s))
-  | "split47", [s] -> Stdlib.String.concat "," (Stdlib.List.map hex_of_bytes (split_byte (n_of_int 47) (bytes_of_hex s)))
-  | _ -> "unknown-command"
-
+(* Driver for the extracted model: one command per input line ("cmd arg arg ..."),
+   one result line per command.  Byte strings travel as hex ("-" = empty string).
+   Commands are registered by the cmds_*.ml files. *)
 let () =
   try
     while true do
       let line = input_line stdin in
       match Stdlib.String.split_on_char ' ' line with
       | [] | [""] -> print_newline ()
-      | cmd :: args -> print_endline (handle cmd args)
+      | cmd :: args ->
+        (match Hashtbl.find_opt Registry.tbl cmd with
+         | Some f -> print_endline (try f args with Stack_overflow -> "model-stack-overflow" | Not_found -> "model-not-found" | Failure m -> "model-failure " ^ m)
+         | None -> print_endline "unknown-command")
     done
   with End_of_file -> ()
